@@ -456,7 +456,8 @@ def _inline_helpers(repo, ref_funcs: set[str], log: dict) -> None:
         still = False
         for m in repo.modules.values():
             for n in ast.walk(m.tree):
-                if isinstance(n, ast.Call) and ((isinstance(n.func, ast.Attribute) and n.func.attr == h.name) or (isinstance(n.func, ast.Name) and n.func.id == h.name)):
+                # any remaining mention - a call, or the function passed around as a value (a table entry, a key function)
+                if (isinstance(n, ast.Attribute) and n.attr == h.name) or (isinstance(n, ast.Name) and n.id == h.name):
                     inside_h = any(n is x for x in ast.walk(h.node))
                     if not inside_h:
                         still = True
